@@ -115,6 +115,12 @@ func profileByName(name string) Profile {
 				p.PFault, p.InvokeFaults, p.PCallback = 0.12, true, 0.5
 			}
 		}
+	case "orderdefer":
+		// the verification-timing half of C16: every pair differs in DeferAcyclicVerification only; registrations
+		// interleaved with Invokes from several scopes, consumers registered before what they consume
+		p.PSoft, p.PFault, p.MaxScopes, p.PLateScope, p.PMidInvoke, p.PInvalid = 0, 0, 4, 0.5, 0.8, 0
+		p.PDefer, p.PBackEdge, p.PGap, p.POptional = 0.5, 0.01, 0.1, 0.3
+		p.Invokes = [2]int{4, 9}
 	case "orderdeco":
 		p.PSoft, p.PFault, p.MaxScopes, p.PLateScope, p.PMidInvoke, p.PInvalid = 0, 0, 4, 0.5, 0.3, 0
 		p.PDefer, p.PBackEdge = 0.3, 0.02
